@@ -29,7 +29,7 @@ func runC09(c *Ctx) {
 	c.Clause("C09.8 plannedInitialPayload registers every CRYPTO frame of a planned datagram with the Initial retransmission handler (per-iteration must-pass)")
 	c.Clause("C09.9 splitRange clamps the number of frames to the number of bytes of the range")
 	c.Clause("C09.10 the flight stored for sending is the value validateInitialFlight accepted; C09.11 unsigned count-minus-constant in the random builders' conditions is guarded against wrap-around")
-	c.Clause("C09.12 the scrambler finishes only when every deferred cut is drained; C09.13 cut positions only from found SNI/ECH positions, non-empty SNI cut, comparator handles unused cuts; C09.14 ClientHello parser bounds; C09.15 the per-datagram base offset is the lowest CRYPTO offset, resolve compares resolved end and start; C09.16 the flight builders frame a resolved range only when it is not empty (both users of resolve agree)")
+	c.Clause("C09.12 the scrambler finishes only when every deferred cut is drained; C09.13 cut positions only from found SNI/ECH positions, non-empty SNI cut, comparator handles unused cuts; C09.14 ClientHello parser bounds; C09.15 the per-datagram base offset is the lowest CRYPTO offset, resolve compares resolved end and start; C09.16 the flight builders frame a resolved range only when it is not empty (both users of resolve agree); C09.17 CRYPTO frames of a retransmission that do not reassemble into one slice are serialised as they are")
 	c.Clause("C09.7 the scrambler's ECH cut ends inside the ClientHello (bounded by end)")
 	c.NotCovered("the upstream anti-DPI scrambler's remaining cut arithmetic (findSNIAndECH, cut ordering in initialCryptoStream.PopCryptoFrame)")
 
@@ -49,6 +49,7 @@ func runC09(c *Ctx) {
 	c.rule("C09.14", func() { c09SNIParserBounds(c) })
 	c.rule("C09.15", func() { c09BaseOffsetAndRange(c) })
 	c.rule("C09.16", func() { c09NoEmptyCryptoFrame(c) })
+	c.rule("C09.17", func() { c09NonContiguousRetransmission(c) })
 }
 
 func c09Flight(c *Ctx) {
